@@ -57,7 +57,7 @@ fn check_new(cx: &mut Ctx, line: &str, spec: &PktSpec, r: &Option<Option<Packet>
     }
 }
 
-fn case_new(cx: &mut Ctx, spec: &PktSpec) {
+pub fn case_new(cx: &mut Ctx, spec: &PktSpec) {
     let line = format!("RESP new {}", spec.line());
     let r = guarded(|| {
         let p = spec.build();
@@ -86,7 +86,7 @@ fn case_err(cx: &mut Ctx, spec: &PktSpec, code: Option<u8>, msg: &[u8], pre: &[(
     case_err_tweaked(cx, spec, code, msg, pre, &[])
 }
 
-fn case_err_tweaked(cx: &mut Ctx, spec: &PktSpec, code: Option<u8>, msg: &[u8], pre: &[(u16, Vec<u8>)], tweaks: &[Tweak]) {
+pub fn case_err_tweaked(cx: &mut Ctx, spec: &PktSpec, code: Option<u8>, msg: &[u8], pre: &[(u16, Vec<u8>)], tweaks: &[Tweak]) {
     // `pre`: options the application already put on the reply; `tweaks`: changes made to the
     // reply / the request between from_packet and apply_from_error
     let mut parts: Vec<String> = pre.iter().map(|(n, v)| format!("{}:{}", n, hex(v))).collect();
